@@ -141,4 +141,61 @@ Section TableP.
     destruct (iter_nexts parse k d o2) as [l o3] eqn:El. cbn [fst]. constructor; [reflexivity|].
     specialize (IH o' o2 E). now rewrite El in IH.
   Qed.
+
+  (* the whole next() sequence: the j-th call returns get(j) while j < len and None ever after
+     (so re-polling an exhausted iterator, in any interleaving with other accesses, is None) *)
+  Lemma get_none d i : buf_ok d -> len d <= i -> res_ok (get d i) = None.
+  Proof.
+    intros Hd Hi. pose proof (get_ok_iff d i Hd) as [H _].
+    destruct (get d i) as [a| |]; cbn [res_ok]; try reflexivity.
+    specialize (H eq_refl). lia.
+  Qed.
+  Lemma nexts_none d : buf_ok d -> forall m o, blen d = 0 \/ blen d < o + size ->
+    fst (iter_nexts parse m d o) = repeat None m.
+  Proof.
+    intros Hd. induction m as [|m IH]; intros o Ho; cbn [iter_nexts repeat]; [reflexivity|].
+    destruct (next_end d o Hd ltac:(tauto)) as [o' [E Hle]]. rewrite E.
+    specialize (IH o'). destruct (iter_nexts parse m d o') as [l o2]. cbn [fst] in *.
+    f_equal. apply IH. pose proof (next_none_stays d o o' Hd E). tauto.
+  Qed.
+  Lemma nexts_from d : buf_ok d -> forall (m : nat) k, k <= len d ->
+    fst (iter_nexts parse m d (k * size)) = map (fun j => res_ok (get d (k + N.of_nat j))) (seq 0 m).
+  Proof.
+    intros Hd. induction m as [|m IH]; intros k Hk; cbn [iter_nexts seq map]; [reflexivity|].
+    destruct (N.lt_ge_cases k (len d)) as [Hlt|Hge].
+    - destruct (next_in d k Hd Hlt) as [a [E G]]. rewrite E.
+      specialize (IH (k + 1) ltac:(lia)). destruct (iter_nexts parse m d ((k + 1) * size)) as [l o2]. cbn [fst] in *.
+      rewrite N.add_0_r, G. cbn [res_ok]. f_equal. rewrite IH, <- seq_shift, map_map.
+      apply map_ext. intros j. do 2 f_equal. lia.
+    - assert (k = len d) as -> by lia.
+      destruct (next_end d (len d * size) Hd) as [o' [E Hle]]. { pose proof (len_spec d). left. lia. }
+      rewrite E. pose proof (nexts_none d Hd m o') as Hn.
+      destruct (iter_nexts parse m d o') as [l o2]. cbn [fst] in *.
+      rewrite get_none by (assumption || lia). f_equal.
+      rewrite Hn by (pose proof (next_none_stays d _ _ Hd E); tauto).
+      assert (G : forall l : list nat, repeat (@None T) (length l) = map (fun j => res_ok (get d (len d + N.of_nat j))) l).
+      { induction l0 as [|j l0 IHl]; cbn [length repeat map]; [reflexivity|].
+        rewrite get_none by (assumption || lia). now f_equal. }
+      rewrite <- (seq_length m 1) at 1. apply G.
+  Qed.
+  Theorem nexts_spec d : buf_ok d -> forall m,
+    fst (iter_nexts parse m d 0) = map (fun j => res_ok (get d (N.of_nat j))) (seq 0 m).
+  Proof.
+    intros Hd m. pose proof (nexts_from d Hd m 0 ltac:(lia)) as H.
+    replace (0 * size) with 0 in H by lia. rewrite H. apply map_ext. intros j. now rewrite N.add_0_l.
+  Qed.
+
+  (* Iterator::nth after k calls of next(): the (k+n)-th entry, or None *)
+  Theorem nth_spec d : buf_ok d -> forall (fuel : nat) n k, k <= len d -> (N.to_nat (len d - k) < fuel)%nat ->
+    fst (it_nth parse fuel n d (k * size)) = res_ok (get d (k + n)).
+  Proof.
+    intros Hd. induction fuel as [|f IH]; intros n k Hk Hf; [lia|]. cbn [it_nth].
+    destruct (N.lt_ge_cases k (len d)) as [Hlt|Hge].
+    - destruct (next_in d k Hd Hlt) as [a [E G]]. rewrite E.
+      destruct (N.eqb_spec n 0) as [->|Hn].
+      + cbn [fst]. now rewrite N.add_0_r, G.
+      + rewrite (IH (N.pred n) (k + 1)) by lia. do 2 f_equal. lia.
+    - destruct (next_end d (k * size) Hd) as [o' [E Hle]]. { pose proof (len_spec d). left. nia. }
+      rewrite E. cbn [fst]. symmetry. apply get_none; [assumption|lia].
+  Qed.
 End TableP.
